@@ -30,7 +30,7 @@ def shards(tier):
 def floors(tier):
     return {"accepted": 5000, "stable": 5000, "variant_pairs_equal": 2000, "variant_pairs_with_different_text": 500,
             "extreme_atoms": 3000, "charge_with_zero_digit": 100, "index_len2": 20, "index_len3": 4, "aromatic_ok": 50,
-            "tokens_checked": 50000, "cross_table_decodes": 300}
+            "tokens_checked": 50000, "cross_table_decodes": 300, "first_seen_under_tight_table": 1000}
 
 
 def dress(m, rng, p=0.6):
@@ -162,6 +162,16 @@ def run(ctx):
         if not same:
             ctx.finding("generator-bug", {"smiles": s1, "variant": s2}, "variant spelling is not the same molecule")
             continue
+        if i % 3 == 0:
+            # the molecule's symbols are first met by the decoder under a table that is too tight for them (the
+            # non-strict encoder does not depend on the table), then K is restored: what the library learnt about a
+            # symbol under one table must not survive into another
+            pre = call_guard(lambda: sf.encoder(s1, strict=False), expected=(sf.EncoderError,))
+            if pre[0] == "ok":
+                sf.set_semantic_constraints(rng.choice([{"?": 1}, {"?": 0}, "octet_rule"]))
+                call_guard(lambda: sf.decoder(pre[1]), expected=(sf.DecoderError,))
+                ctx.count("first_seen_under_tight_table")
+            sf.set_semantic_constraints(table)
         xo = check(s1, table, tname, "G5-extreme" if extreme else "G5", s_variant=s2)
         if xo:
             recent.append(xo)
